@@ -152,13 +152,16 @@ def psi_update(psi, mu, eps, gamma, u, dt, lap_psi, dtype=np.longdouble):
     b = 2 * c + 1
     z2 = z.real**2 + z.imag**2
     w2 = w.real**2 + w.imag**2
-    disc = b * b - 4 * z2 * w2
+    # b^2 - 4 |z|^2 |w|^2 with |z|^2 |w|^2 = |conj(z) w|^2 = c^2 + s^2: the c^2 terms cancel identically, which leaves
+    # 4c + 1 - 4 s^2.  Evaluated this way the reference has no cancellation of terms ~ gamma^8 (it is the same number).
+    s_ = w.imag * z.real - w.real * z.imag
+    disc = 4 * c + 1 - 4 * s_ * s_
     with np.errstate(all="ignore"):
         sq = np.sqrt(np.where(disc >= 0, disc, 0))
         x_plus = 2 * w2 / (b + sq)
         x_minus = np.where(b - sq != 0, 2 * w2 / np.where(b - sq != 0, b - sq, 1), np.inf)
     psi_new = w - z * x_plus
-    return dict(z=z, w=w, c=c, b=b, disc=disc, x_plus=x_plus, x_minus=x_minus, psi_new=psi_new, z2=z2, w2=w2)
+    return dict(z=z, w=w, c=c, b=b, disc=disc, x_plus=x_plus, x_minus=x_minus, psi_new=psi_new, z2=z2, w2=w2, s=s_)
 
 
 def reference_step(rm: RawMesh, psi, mu, eps, gamma, u, dt, A_edges, pinned=(), boundary_flux=None, dA_dt=0.0):
